@@ -39,7 +39,7 @@ static struct Opts {
     std::vector<std::string> ubFiles;    // restrict nsw/shift UB checks to functions defined in these files
 } O;
 
-struct Violation { std::string kind, msg, where; std::vector<std::pair<std::string, std::string>> inputs; std::vector<std::tuple<std::string,unsigned,std::string>> vec; };
+struct Violation { std::string kind, msg, where, sched; std::vector<std::pair<std::string, std::string>> inputs; std::vector<std::tuple<std::string,unsigned,std::string>> vec; };
 struct Sample { std::vector<std::tuple<std::string,unsigned,std::string>> vec; std::vector<std::pair<std::string,std::string>> obs; };
 static struct Stats {
     unsigned long paths = 0, queries = 0, instr = 0, forks = 0, cacheHits = 0, throws = 0, assumesCut = 0, modelHits = 0;
@@ -187,6 +187,7 @@ static void report(State &s, const std::string &kind, const std::string &msg, co
     if (!checkSat(s, cond, &m)) return; // not actually feasible
     Violation v; v.kind = kind; v.msg = msg; v.where = whereOf(s);
     v.vec = inputVector(s, *m);
+    for (size_t i = 0; i < s.sched.size(); i++) v.sched += (i ? "," : "") + std::to_string((int)s.sched[i]);
     // dedupe on kind+msg+where(first frame)
     for (auto &o : ST.viol) if (o.kind == v.kind && o.msg == v.msg && o.where == v.where) return;
     if (O.verbose) { std::cerr << "VIOLATION " << kind << ": " << msg << " at " << v.where << "\n"; for (auto &t : v.vec) std::cerr << "   " << std::get<0>(t) << " = " << std::get<2>(t) << "\n"; }
@@ -197,16 +198,25 @@ static void report(State &s, const std::string &kind, const std::string &msg, co
 // ---------------------------------------------------------------- memory
 static ObjP allocObj(State &s, uint64_t size, const std::string &name, bool zero, bool stack = false) {
     auto o = std::make_shared<Obj>();
-    uint64_t &na = stack ? s.nextStack : s.nextAddr;
+    uint64_t &na = stack ? ((s.cur > 0 && s.T().nextStack) ? s.T().nextStack : s.nextStack) : s.nextAddr;
     o->base = na; na += ((size + 32 + 31) / 32) * 32;
     o->b.assign(size, zero ? 0 : 0xCD); o->name = name; o->stack = stack;
     s.mem[o->base] = o; return o;
 }
 static Obj *findObj(State &s, uint64_t addr, bool forWrite) {
     auto it = s.mem.upper_bound(addr);
-    if (it == s.mem.begin()) return nullptr;
-    --it;
+    bool have = it != s.mem.begin(); if (have) --it;
+    if (s.baseMem) { // thread mode: two-level lookup (delta over an immutable shared snapshot)
+        auto bt = s.baseMem->upper_bound(addr); bool haveB = bt != s.baseMem->begin(); if (haveB) --bt;
+        if (haveB && (!have || bt->first > it->first)) { // the containing object (if any) is in the snapshot and was not touched since
+            if (addr - bt->first > bt->second->size()) return nullptr;
+            if (!forWrite) return bt->second.get();
+            it = s.mem.emplace(bt->first, bt->second).first; have = true; // copy-on-write into the delta below
+        }
+    }
+    if (!have || !it->second) return nullptr;
     if (addr - it->first > it->second->size()) return nullptr; // one-past allowed for lookup
+    if (forWrite && s.threads.size() > 1) s.dirty.insert(it->first);
     if (forWrite && it->second.use_count() > 1) {
         auto n = std::make_shared<Obj>(*it->second);
         if (n->s) n->s = std::make_shared<std::vector<Ast>>(*n->s);
@@ -664,7 +674,7 @@ static bool derivesFrom(State &s, uint64_t ti, uint64_t target, int64_t &off, in
 static std::vector<uint64_t> tiSelectors;
 static int64_t selectorFor(uint64_t ti) { for (size_t i = 0; i < tiSelectors.size(); i++) if (tiSelectors[i] == ti) return (int64_t)i + 1; tiSelectors.push_back(ti); return (int64_t)tiSelectors.size(); }
 static void enterBlock(State &s, Frame &f, BasicBlock *to);
-static void popFrame(State &s) { Thread &t = s.T(); for (uint64_t a : t.stack.back().allocas) s.mem.erase(a); t.stack.pop_back(); }
+static void popFrame(State &s) { Thread &t = s.T(); for (uint64_t a : t.stack.back().allocas) { if (s.baseMem && s.baseMem->count(a)) s.mem[a] = nullptr; else s.mem.erase(a); if (!s.dirty.empty()) s.dirty.erase(a); } if (s.cur > 0 && t.nextStack) t.nextStack = t.stack.back().stackMark; t.stack.pop_back(); }
 static void unwind(State &s, uint64_t obj, uint64_t ti) {
     Thread &t = s.T(); ++ST.throws;
     while (!t.stack.empty()) {
@@ -701,13 +711,17 @@ static uint64_t dynamicCast(State &s, uint64_t p, uint64_t dstTi) {
 }
 
 // ---------------------------------------------------------------- builtins
+struct H128 { uint64_t a = 0x9e3779b97f4a7c15ULL, b = 0xc2b2ae3d27d4eb4fULL; void mix(uint64_t x) { a = (a ^ x) * 0x100000001b3ULL; a ^= a >> 29; b = (b + x) * 0xff51afd7ed558ccdULL; b ^= b >> 32; } };
+static void hashVal(H128 &h, const Val &v) { h.mix(v.w); if (v.agg) { for (auto &x : *v.agg) hashVal(h, x); return; } if (v.a) h.mix(0x5bd1e995ULL ^ Z3_get_ast_hash(Z, v.a.a)); else h.mix(v.c); }
+static void hashObj(H128 &h, uint64_t base, const Obj &o) { h.mix(base); h.mix(o.size()); h.mix(o.freed); uint64_t acc = 0; unsigned k = 0; for (uint8_t c : o.b) { acc = (acc << 8) | c; if (++k == 8) { h.mix(acc); acc = 0; k = 0; } } h.mix(acc); if (o.s) for (size_t i = 0; i < o.s->size(); i++) if ((*o.s)[i]) { h.mix(i); h.mix(Z3_get_ast_hash(Z, (*o.s)[i].a)); } }
 static std::vector<Function *> entrySeq;
 static std::vector<std::string> concreteInputs; static bool concreteMode = false;
 static unsigned preemptBound = 1000;
-enum BI { B_NONE = 0, B_MALLOC, B_CALLOC, B_REALLOC, B_FREE, B_GUARD_ACQ, B_GUARD_REL, B_ATEXIT, B_ERRNO, B_NOOP, B_NOOP_RET0, B_NOOP_RETARG0,
+static std::vector<int> fixedSched; static bool haveFixedSched = false;
+enum BI { B_NONE = 0, B_MALLOC, B_CALLOC, B_REALLOC, B_FREE, B_GUARD_ACQ, B_GUARD_REL, B_ATEXIT, B_ERRNO, B_NOOP, B_NOOP_RET0, B_NOOP_RET1, B_NOOP_RETARG0,
     B_ALLOC_EXN, B_FREE_EXN, B_THROW, B_RETHROW, B_BEGIN_CATCH, B_END_CATCH, B_GET_EXN_PTR, B_TYPEID_FOR, B_DYNCAST, B_TERMINATE, B_PUREVIRT,
     B_ABORT, B_EXIT, B_XASSERT, B_ASSERT_FAIL, B_FATAL,
-    B_ND8, B_ND16, B_ND32, B_ND64, B_NDBUF, B_ASSUME, B_ASSERT, B_OBSERVE, B_REACH, B_SPAWN, B_JOIN, B_CONCRETIZE, B_YIELD,
+    B_ND8, B_ND16, B_ND32, B_ND64, B_NDBUF, B_ASSUME, B_ASSERT, B_OBSERVE, B_REACH, B_SPAWN, B_JOIN, B_CONCRETIZE, B_YIELD, B_CHOOSE,
     B_MEMCPY, B_MEMMOVE, B_MEMSET, B_VASTART, B_VAEND, B_VACOPY, B_INTRIN_SKIP, B_EXPECT, B_OBJSIZE, B_ISCONST,
     B_UMIN, B_UMAX, B_SMIN, B_SMAX, B_ABS, B_CTLZ, B_CTTZ, B_CTPOP, B_BSWAP, B_FSHL, B_FSHR, B_USUBSAT, B_UADDSAT, B_OVF, B_ASSUME_INTRIN, B_TRAP,
     B_FABS, B_FLOOR, B_CEIL, B_SQRT, B_STACKSAVE, B_STACKRESTORE, B_UNCAUGHT, B_GETENV, B_PTRMASK, B_FMULADD, B_POW, B_LOG, B_EXP, B_FMOD, B_ROUND, B_TRUNC_F };
@@ -720,7 +734,7 @@ static int classify(const Function *F) {
         {"calloc", B_CALLOC}, {"xcalloc", B_CALLOC}, {"realloc", B_REALLOC}, {"xrealloc", B_REALLOC},
         {"free", B_FREE}, {"xfree", B_FREE}, {"free_const", B_FREE}, {"_ZdlPv", B_FREE}, {"_ZdaPv", B_FREE}, {"_ZdlPvm", B_FREE}, {"_ZdaPvm", B_FREE},
         {"__cxa_guard_acquire", B_GUARD_ACQ}, {"__cxa_guard_release", B_GUARD_REL}, {"__cxa_guard_abort", B_NOOP}, {"__cxa_atexit", B_ATEXIT}, {"atexit", B_ATEXIT}, {"__cxa_thread_atexit", B_ATEXIT},
-        {"__errno_location", B_ERRNO},
+        {"__errno_location", B_ERRNO}, {"__atomic_is_lock_free", B_NOOP_RET1},
         {"__cxa_allocate_exception", B_ALLOC_EXN}, {"__cxa_free_exception", B_FREE_EXN}, {"__cxa_throw", B_THROW}, {"__cxa_rethrow", B_RETHROW},
         {"__cxa_begin_catch", B_BEGIN_CATCH}, {"__cxa_end_catch", B_END_CATCH}, {"__cxa_get_exception_ptr", B_GET_EXN_PTR}, {"llvm.eh.typeid.for", B_TYPEID_FOR},
         {"__dynamic_cast", B_DYNCAST}, {"_ZSt9terminatev", B_TERMINATE}, {"__cxa_pure_virtual", B_PUREVIRT}, {"__cxa_call_unexpected", B_TERMINATE},
@@ -728,7 +742,7 @@ static int classify(const Function *F) {
         {"abort", B_ABORT}, {"exit", B_EXIT}, {"_exit", B_EXIT}, {"_Exit", B_EXIT}, {"xassert", B_XASSERT}, {"__assert_fail", B_ASSERT_FAIL},
         {"_Z5fatalPKc", B_FATAL}, {"_Z6fatalfPKcz", B_FATAL}, {"_Z10fatal_dumpPKc", B_FATAL},
         {"vf_nondet_u8", B_ND8}, {"vf_nondet_u16", B_ND16}, {"vf_nondet_u32", B_ND32}, {"vf_nondet_u64", B_ND64}, {"vf_nondet_buf", B_NDBUF},
-        {"vf_assume", B_ASSUME}, {"vf_assert", B_ASSERT}, {"vf_observe", B_OBSERVE}, {"vf_reach", B_REACH}, {"vf_spawn", B_SPAWN}, {"vf_join", B_JOIN}, {"vf_concretize", B_CONCRETIZE}, {"vf_yield", B_YIELD},
+        {"vf_assume", B_ASSUME}, {"vf_assert", B_ASSERT}, {"vf_observe", B_OBSERVE}, {"vf_reach", B_REACH}, {"vf_spawn", B_SPAWN}, {"vf_join", B_JOIN}, {"vf_concretize", B_CONCRETIZE}, {"vf_yield", B_YIELD}, {"vf_choose", B_CHOOSE},
         {"memcpy", B_MEMCPY}, {"memmove", B_MEMMOVE}, {"memset", B_MEMSET}, {"getenv", B_GETENV}, {"secure_getenv", B_GETENV},
         {"llvm.va_start", B_VASTART}, {"llvm.va_end", B_VAEND}, {"llvm.va_copy", B_VACOPY}, {"llvm.trap", B_TRAP}, {"llvm.stacksave", B_STACKSAVE}, {"llvm.stackrestore", B_STACKRESTORE},
         {"fabs", B_FABS}, {"floor", B_FLOOR}, {"ceil", B_CEIL}, {"sqrt", B_SQRT}, {"pow", B_POW}, {"log", B_LOG}, {"exp", B_EXP}, {"fmod", B_FMOD}, {"round", B_ROUND}, {"trunc", B_TRUNC_F},
@@ -764,13 +778,13 @@ static Val newInput(State &s, const std::string &nm, unsigned w) {
     if (concreteMode) {
         if (s.concIdx >= concreteInputs.size()) throw EngineError{"concrete input vector exhausted"};
         const std::string &t = concreteInputs[s.concIdx++]; Val v = Val::C(w, strtoull(t.c_str(), nullptr, 0));
-        s.inputs.push_back({nm, w, Ast()}); return v;
+        s.inputs.push_back({nm, w, Ast(Z.bv_val(v.c, w))}); return v;
     }
     z3::expr e = Z.bv_const(("in" + std::to_string(s.inputs.size()) + "_" + nm).c_str(), w);
     s.inputs.push_back({nm, w, Ast(e)}); Val r; r.w = w; r.a = Ast(e); return r;
 }
 static void finishCall(State &s, Frame &f, Instruction *I) { if (auto *inv = dyn_cast<InvokeInst>(I)) enterBlock(s, f, inv->getNormalDest()); else ++f.pc; }
-static void schedule(State &s, bool atJoin);
+static void schedule(State &s, bool atJoin, bool freeSwitch = false);
 // returns true if handled (call completed or control transferred)
 static bool handleBuiltin(State &s, Frame &f, CallBase *cb, Function *callee) {
     auto bi = bcache.find(callee); int id;
@@ -783,6 +797,7 @@ static bool handleBuiltin(State &s, Frame &f, CallBase *cb, Function *callee) {
     switch (id) {
     case B_INTRIN_SKIP: case B_NOOP: case B_VAEND: return done();
     case B_NOOP_RET0: return rw ? ret(Val::C(rw, 0)) : done();
+    case B_NOOP_RET1: return rw ? ret(Val::C(rw, 1)) : done();
     case B_NOOP_RETARG0: {
         // sret no-ops: zero the result object so later destructors see an empty value
         if (cb->arg_size() && cb->paramHasAttr(0, Attribute::StructRet)) { Val p = arg(0); if (!p.sym()) { Obj *o = findObj(s, p.c, true); if (o) { Type *t = cb->getParamAttr(0, Attribute::StructRet).getValueAsType(); uint64_t n = t ? DL->getTypeAllocSize(t) : 0; if (p.c - o->base + n <= o->size()) doMemset(s, p, Val::C(8, 0), Val::C(64, n)); } } }
@@ -832,10 +847,17 @@ static bool handleBuiltin(State &s, Frame &f, CallBase *cb, Function *callee) {
     case B_REACH: { s.reached.insert(readCStr(s, arg(0).c)); return done(); }
     case B_CONCRETIZE: { Val v = arg(0); return ret(Val::C(v.w, concretize(s, v, "vf_concretize"))); }
     case B_SPAWN: { Val fn = arg(0); auto it = funcAt.find(fn.c); if (it == funcAt.end()) throw EngineError{"vf_spawn of non-function"};
-        Thread t; Frame nf; nf.fi = getFI(it->second); nf.bb = &it->second->getEntryBlock(); nf.pc = nf.bb->begin(); nf.regs.resize(nf.fi->nslots); if (it->second->arg_size()) nf.regs[0] = arg(1); t.stack.push_back(std::move(nf));
+        if (s.threads.size() == 1) { H128 h; for (auto &m : s.mem) hashObj(h, m.first, *m.second); s.baseHash[0] = h.a; s.baseHash[1] = h.b;
+            s.baseMem = std::make_shared<const std::map<uint64_t, ObjP>>(std::move(s.mem)); s.mem.clear(); }
+        Thread t; t.nextStack = 0x7e0000000000ULL + ((uint64_t)s.threads.size() << 32); Frame nf; nf.stackMark = t.nextStack; nf.fi = getFI(it->second); nf.bb = &it->second->getEntryBlock(); nf.pc = nf.bb->begin(); nf.regs.resize(nf.fi->nslots); if (it->second->arg_size()) nf.regs[0] = arg(1); t.stack.push_back(std::move(nf));
         s.threads.push_back(std::move(t)); return ret(Val::C(32, s.threads.size() - 1)); }
     case B_JOIN: { finishCall(s, f, cb); s.joining = true; schedule(s, true); return true; }
     case B_YIELD: return done();
+    case B_CHOOSE: { // nondeterministic choice among 0..n-1 without creating a symbolic variable (keeps thread-mode states concrete and hashable)
+        uint64_t n = arg(0).c; std::string nm = readCStr(s, arg(1).c); if (arg(0).sym() || n == 0 || n > 64) throw EngineError{"vf_choose needs a concrete count in 1..64"};
+        if (concreteMode) { if (s.concIdx >= concreteInputs.size()) throw EngineError{"concrete input vector exhausted"}; uint64_t v = strtoull(concreteInputs[s.concIdx++].c_str(), nullptr, 0); s.inputs.push_back({nm, 32, Ast(Z.bv_val((unsigned)(v % n), 32))}); return ret(Val::C(32, v % n)); }
+        for (uint64_t k = 1; k < n; k++) { auto o = std::make_unique<State>(s); o->inputs.push_back({nm, 32, Ast(Z.bv_val((unsigned)k, 32))}); o->depth++; Frame &of = o->T().stack.back(); setVal(of, cb, Val::C(32, k)); finishCall(*o, of, cb); pushWork(std::move(o)); }
+        s.inputs.push_back({nm, 32, Ast(Z.bv_val(0, 32))}); s.depth++; return ret(Val::C(32, 0)); }
     case B_MEMCPY: case B_MEMMOVE: { doMemcpy(s, f, arg(0), arg(1), arg(2), id == B_MEMMOVE); if (rw) return ret(arg(0)); return done(); }
     case B_MEMSET: { doMemset(s, arg(0), truncTo(arg(1), 8), arg(2)); if (rw) return ret(arg(0)); return done(); }
     case B_VASTART: { Val ap = arg(0); uint64_t n = 0; for (auto &v : f.varargs) n += v.w > 64 ? 16 : 8;
@@ -893,20 +915,38 @@ static bool isAtomicInst(const Instruction *I) {
     if (auto *cb = dyn_cast<CallBase>(I)) if (auto *fn = cb->getCalledFunction()) if (fn->getName() == "vf_yield") return true;
     return isa<AtomicRMWInst>(I) || isa<AtomicCmpXchgInst>(I) || isa<FenceInst>(I);
 }
-static void schedule(State &s, bool atJoin) {
+static std::set<std::pair<uint64_t, uint64_t>> visitedStates; static bool stateHashing = true;
+static unsigned long prunedStates = 0;
+// true if an equivalent state (same thread stacks, registers, memory written since the first spawn, path condition) was already expanded at a scheduling point
+static bool seenBefore(State &s) {
+    H128 h; h.mix(s.baseHash[0]); h.mix(s.baseHash[1]); h.mix(s.nextAddr);
+    if (preemptBound < 1000) { h.mix(s.cur); h.mix(s.preempts); }
+    for (auto &c : s.pc) h.mix(Z3_get_ast_hash(Z, c.a));
+    for (auto &t : s.threads) { h.mix(0x7468ULL); h.mix(t.done); h.mix(t.stack.size()); h.mix(t.caught.size());
+        for (auto &f : t.stack) { h.mix((uint64_t)(uintptr_t)f.fi->f); h.mix((uint64_t)(uintptr_t)f.bb); h.mix((uint64_t)(uintptr_t)f.prev); h.mix(f.pc == f.bb->end() ? 0 : (uint64_t)(uintptr_t)&*f.pc); for (auto &r : f.regs) hashVal(h, r); for (auto &r : f.varargs) hashVal(h, r); } }
+    for (uint64_t b : s.dirty) { auto it = s.mem.find(b); if (it == s.mem.end() || !it->second) h.mix(b ^ 0xdeadULL); else hashObj(h, b, *it->second); }
+    return !visitedStates.insert({h.a, h.b}).second;
+}
+static void schedule(State &s, bool atJoin, bool freeSwitch) {
+    if (stateHashing && !haveFixedSched && seenBefore(s)) { ++prunedStates; throw PathEnd{}; }
     std::vector<int> run; for (size_t i = 1; i < s.threads.size(); i++) if (!s.threads[i].done && !s.threads[i].stack.empty()) run.push_back((int)i);
     if (run.empty()) { s.cur = 0; s.joining = false; s.skipThread = -1; return; }
     bool curRunnable = s.cur >= 1 && !s.threads[s.cur].done && !s.threads[s.cur].stack.empty();
     std::vector<int> alts;
-    if (curRunnable) { alts.push_back(s.cur); if (s.preempts < preemptBound) for (int t : run) if (t != s.cur) alts.push_back(t); }
+    if (curRunnable) { alts.push_back(s.cur); if (s.preempts < preemptBound || freeSwitch) for (int t : run) if (t != s.cur) alts.push_back(t); }
     else alts = run;
+    if (haveFixedSched) { // replay of a recorded schedule: no forking
+        size_t k = s.sched.size(); if (k >= fixedSched.size()) throw EngineError{"recorded schedule exhausted"};
+        int t = fixedSched[k]; bool okT = false; for (int a : run) if (a == t) okT = true; if (!okT) throw EngineError{"recorded schedule names a thread that is not runnable"};
+        alts.assign(1, t);
+    }
     auto setSkip = [](State &st, int t) { Frame &fr = st.threads[t].stack.back(); st.skipThread = -1; st.skipAt = nullptr; if (fr.pc != fr.bb->end() && isAtomicInst(&*fr.pc)) { st.skipThread = t; st.skipAt = &*fr.pc; } };
-    for (size_t k = 1; k < alts.size(); k++) { auto o = std::make_unique<State>(s); if (curRunnable) o->preempts++; o->cur = alts[k]; o->sched.push_back((uint8_t)alts[k]); setSkip(*o, alts[k]); o->depth++; pushWork(std::move(o)); }
+    for (size_t k = 1; k < alts.size(); k++) { auto o = std::make_unique<State>(s); if (curRunnable && !freeSwitch) o->preempts++; o->cur = alts[k]; o->sched.push_back((uint8_t)alts[k]); setSkip(*o, alts[k]); o->depth++; pushWork(std::move(o)); }
     s.cur = alts[0]; s.sched.push_back((uint8_t)alts[0]); setSkip(s, alts[0]);
 }
 static void callFunction(State &s, Frame &f, CallBase *cb, Function *callee) {
     if (callee->isDeclaration()) { ST.externalsHit.insert(callee->getName().str()); throw EngineError{"unmodelled external: " + callee->getName().str()}; }
-    Frame nf; nf.fi = getFI(callee); nf.bb = &callee->getEntryBlock(); nf.pc = nf.bb->begin(); nf.callsite = cb; nf.regs.resize(nf.fi->nslots);
+    Frame nf; nf.fi = getFI(callee); nf.bb = &callee->getEntryBlock(); nf.pc = nf.bb->begin(); nf.callsite = cb; nf.regs.resize(nf.fi->nslots); nf.stackMark = s.T().nextStack;
     unsigned np = callee->arg_size(), i = 0;
     if (cb->arg_size() < np) throw EngineError{"call with too few arguments to " + callee->getName().str()};
     for (; i < np; i++) {
@@ -954,7 +994,7 @@ static void runState(State &s) {
         if ((ST.instr & 0x3fff) == 0 && wallNow() > O.timeout) throw Timeout{};
         if (s.joining && s.cur >= 1 && isAtomicInst(&I)) {
             if (s.skipThread == s.cur && s.skipAt == &I) { s.skipThread = -1; s.skipAt = nullptr; }
-            else { schedule(s, false); continue; }
+            else { bool fr = false; if (auto *ycb = dyn_cast<CallBase>(&I)) if (auto *yf = ycb->getCalledFunction()) fr = yf->getName() == "vf_yield"; schedule(s, false, fr); continue; }
         }
         switch (I.getOpcode()) {
         case Instruction::Br: { auto *bi = cast<BranchInst>(&I); if (bi->isUnconditional()) enterBlock(s, f, bi->getSuccessor(0)); else branchTo(s, f, bi, getVal(f, bi->getCondition())); continue; }
@@ -1113,21 +1153,21 @@ static std::string esc(const std::string &s) { std::string r; for (char c : s) {
 static std::string unesc(const std::string &s) { std::string r; for (size_t i = 0; i < s.size(); i++) { if (s[i] == '\\' && i + 1 < s.size()) { char c = s[++i]; r += c == 'n' ? '\n' : c == 't' ? '\t' : c; } else r += s[i]; } return r; }
 static std::vector<std::string> splitTab(const std::string &l) { std::vector<std::string> v; size_t p = 0; while (true) { size_t q = l.find('\t', p); if (q == std::string::npos) { v.push_back(l.substr(p)); break; } v.push_back(l.substr(p, q - p)); p = q + 1; } return v; }
 static void writeStats(std::ostream &o) {
-    o << "C\t" << ST.paths << "\t" << ST.queries << "\t" << ST.instr << "\t" << ST.forks << "\t" << ST.cacheHits << "\t" << ST.throws << "\t" << ST.assumesCut << "\t" << ST.solverSec << "\n";
+    o << "C\t" << ST.paths << "\t" << ST.queries << "\t" << ST.instr << "\t" << ST.forks << "\t" << ST.cacheHits << "\t" << ST.throws << "\t" << ST.assumesCut << "\t" << ST.solverSec << "\t" << prunedStates << "\n";
     for (auto &r : ST.reached) o << "R\t" << esc(r) << "\n";
     for (auto &r : ST.externalsHit) o << "X\t" << esc(r) << "\n";
     for (auto &r : ST.errors) o << "E\t" << esc(r) << "\n";
-    for (auto &v : ST.viol) { o << "V\t" << esc(v.kind) << "\t" << esc(v.msg) << "\t" << esc(v.where) << "\t" << v.vec.size() << "\n"; for (auto &t : v.vec) o << "I\t" << esc(std::get<0>(t)) << "\t" << std::get<1>(t) << "\t" << std::get<2>(t) << "\n"; }
+    for (auto &v : ST.viol) { o << "V\t" << esc(v.kind) << "\t" << esc(v.msg) << "\t" << esc(v.where) << "\t" << v.vec.size() << "\t" << v.sched << "\n"; for (auto &t : v.vec) o << "I\t" << esc(std::get<0>(t)) << "\t" << std::get<1>(t) << "\t" << std::get<2>(t) << "\n"; }
     for (auto &sm : ST.samples) { o << "S\t" << sm.vec.size() << "\t" << sm.obs.size() << "\n"; for (auto &t : sm.vec) o << "I\t" << esc(std::get<0>(t)) << "\t" << std::get<1>(t) << "\t" << std::get<2>(t) << "\n"; for (auto &ob : sm.obs) o << "O\t" << esc(ob.first) << "\t" << esc(ob.second) << "\n"; }
 }
 static void mergeStats(std::istream &in) {
     std::string l; Violation *cv = nullptr; Sample *cs = nullptr;
     while (std::getline(in, l)) {
         auto f = splitTab(l); if (f.empty()) continue;
-        if (f[0] == "C" && f.size() >= 9) { ST.paths += std::stoul(f[1]); ST.queries += std::stoul(f[2]); ST.instr += std::stoul(f[3]); ST.forks += std::stoul(f[4]); ST.cacheHits += std::stoul(f[5]); ST.throws += std::stoul(f[6]); ST.assumesCut += std::stoul(f[7]); ST.solverSec += std::stod(f[8]); }
+        if (f[0] == "C" && f.size() >= 9) { ST.paths += std::stoul(f[1]); ST.queries += std::stoul(f[2]); ST.instr += std::stoul(f[3]); ST.forks += std::stoul(f[4]); ST.cacheHits += std::stoul(f[5]); ST.throws += std::stoul(f[6]); ST.assumesCut += std::stoul(f[7]); ST.solverSec += std::stod(f[8]); if (f.size() > 9) prunedStates += std::stoul(f[9]); }
         else if (f[0] == "R") ST.reached.insert(unesc(f[1])); else if (f[0] == "X") ST.externalsHit.insert(unesc(f[1]));
         else if (f[0] == "E") { if (ST.errors.size() < 200) ST.errors.push_back(unesc(f[1])); }
-        else if (f[0] == "V") { Violation v; v.kind = unesc(f[1]); v.msg = unesc(f[2]); v.where = unesc(f[3]); bool dup = false; for (auto &o : ST.viol) if (o.kind == v.kind && o.msg == v.msg && o.where == v.where) dup = true; static Violation dummy; if (dup) { dummy = v; cv = &dummy; } else { ST.viol.push_back(v); cv = &ST.viol.back(); } cs = nullptr; }
+        else if (f[0] == "V") { Violation v; v.kind = unesc(f[1]); v.msg = unesc(f[2]); v.where = unesc(f[3]); if (f.size() > 5) v.sched = f[5]; bool dup = false; for (auto &o : ST.viol) if (o.kind == v.kind && o.msg == v.msg && o.where == v.where) dup = true; static Violation dummy; if (dup) { dummy = v; cv = &dummy; } else { ST.viol.push_back(v); cv = &ST.viol.back(); } cs = nullptr; }
         else if (f[0] == "S") { ST.samples.emplace_back(); cs = &ST.samples.back(); cv = nullptr; }
         else if (f[0] == "I") { auto t = std::make_tuple(unesc(f[1]), (unsigned)std::stoul(f[2]), f[3]); if (cv) cv->vec.push_back(t); else if (cs) cs->vec.push_back(t); }
         else if (f[0] == "O") { if (cs) cs->obs.push_back({unesc(f[1]), unesc(f[2])}); }
@@ -1137,11 +1177,11 @@ static std::string jstr(const std::string &s) { std::string r = "\""; for (unsig
 static void writeJson(std::ostream &o, double wall, unsigned workers) {
     auto vecJ = [&](const std::vector<std::tuple<std::string,unsigned,std::string>> &v) { std::string r = "["; for (size_t i = 0; i < v.size(); i++) { if (i) r += ","; r += "{\"name\":" + jstr(std::get<0>(v[i])) + ",\"bits\":" + std::to_string(std::get<1>(v[i])) + ",\"value\":" + jstr(std::get<2>(v[i])) + "}"; } return r + "]"; };
     o << "{\n \"entry\": " << jstr(O.entry) << ",\n \"paths\": " << ST.paths << ",\n \"queries\": " << ST.queries << ",\n \"instructions\": " << ST.instr << ",\n \"forks\": " << ST.forks << ",\n \"cache_hits\": " << ST.cacheHits
-      << ",\n \"throws\": " << ST.throws << ",\n \"assume_cuts\": " << ST.assumesCut << ",\n \"solver_s\": " << ST.solverSec << ",\n \"wall_s\": " << wall << ",\n \"workers\": " << workers << ",\n \"timed_out\": " << (timedOut ? "true" : "false") << ",\n";
+      << ",\n \"throws\": " << ST.throws << ",\n \"pruned_states\": " << prunedStates << ",\n \"assume_cuts\": " << ST.assumesCut << ",\n \"solver_s\": " << ST.solverSec << ",\n \"wall_s\": " << wall << ",\n \"workers\": " << workers << ",\n \"timed_out\": " << (timedOut ? "true" : "false") << ",\n";
     o << " \"reached\": ["; { bool first = true; for (auto &r : ST.reached) { if (!first) o << ","; first = false; o << jstr(r); } } o << "],\n";
     o << " \"externals_hit\": ["; { bool first = true; for (auto &r : ST.externalsHit) { if (!first) o << ","; first = false; o << jstr(r); } } o << "],\n";
     o << " \"errors\": ["; for (size_t i = 0; i < ST.errors.size(); i++) { if (i) o << ","; o << jstr(ST.errors[i]); } o << "],\n";
-    o << " \"violations\": ["; for (size_t i = 0; i < ST.viol.size(); i++) { auto &v = ST.viol[i]; if (i) o << ","; o << "\n  {\"kind\":" << jstr(v.kind) << ",\"msg\":" << jstr(v.msg) << ",\"where\":" << jstr(v.where) << ",\"inputs\":" << vecJ(v.vec) << "}"; } o << "],\n";
+    o << " \"violations\": ["; for (size_t i = 0; i < ST.viol.size(); i++) { auto &v = ST.viol[i]; if (i) o << ","; o << "\n  {\"kind\":" << jstr(v.kind) << ",\"msg\":" << jstr(v.msg) << ",\"where\":" << jstr(v.where) << ",\"schedule\":" << jstr(v.sched) << ",\"inputs\":" << vecJ(v.vec) << "}"; } o << "],\n";
     o << " \"samples\": ["; for (size_t i = 0; i < ST.samples.size(); i++) { auto &sm = ST.samples[i]; if (i) o << ","; o << "\n  {\"inputs\":" << vecJ(sm.vec) << ",\"obs\":["; for (size_t k = 0; k < sm.obs.size(); k++) { if (k) o << ","; o << "[" << jstr(sm.obs[k].first) << "," << jstr(sm.obs[k].second) << "]"; } o << "]}"; } o << "]\n}\n";
 }
 
@@ -1155,6 +1195,8 @@ int main(int argc, char **argv) {
         else if (a == "--sample-every") O.sampleEvery = std::stoul(nxt()); else if (a == "--max-samples") O.maxSamples = std::stoul(nxt()); else if (a == "-v") O.verbose = true;
         else if (a == "--stop-on-violation") O.stopOnViolation = true; else if (a == "--noop") O.noops.push_back(nxt()); else if (a == "--no-ub-checks") O.checkOverflow = false; else if (a == "--ub-checks") O.checkOverflow = true;
         else if (a == "--dump-dir") O.dumpDir = nxt(); else if (a == "--dump-every") O.dumpEvery = std::stoul(nxt()); else if (a == "--preempt") preemptBound = std::stoul(nxt()); else if (a == "--query-timeout-ms") O.queryTimeoutMs = std::stoul(nxt());
+        else if (a == "--schedule") { haveFixedSched = true; std::string v = nxt(); size_t p0 = 0; while (p0 < v.size()) { size_t q = v.find(',', p0); if (q == std::string::npos) q = v.size(); if (q > p0) fixedSched.push_back(atoi(v.substr(p0, q - p0).c_str())); p0 = q + 1; } }
+        else if (a == "--no-state-hashing") stateHashing = false;
         else if (a == "--split") O.splitTarget = std::stoul(nxt()); else if (a == "--ub-file") O.ubFiles.push_back(nxt());
         else if (a == "--slice") { std::string v = nxt(); sliceI = atoi(v.c_str()); sliceN = atoi(v.c_str() + v.find('/') + 1); } else if (a == "--counter") counterPath = nxt(); else if (a == "--slice-out") sliceOut = nxt();
         else if (a[0] == '-') { std::cerr << "unknown option " << a << "\n"; return 2; } else modPath = a;
@@ -1236,7 +1278,7 @@ int main(int argc, char **argv) {
         }
         uint64_t fh = 1469598103934665603ULL; for (auto &st : work) { fh = (fh ^ st->pc.size()) * 1099511628211ULL; for (auto &c : st->pc) fh = (fh ^ Z3_get_ast_hash(Z, c.a)) * 1099511628211ULL; fh = (fh ^ st->steps) * 1099511628211ULL; }
         std::string frontier = "F\t" + std::to_string(work.size()) + "\t" + std::to_string(fh) + "\t" + std::to_string(ST.paths);
-        if (sliceI != 0) { Stats fresh; ST = fresh; }   // phase-1 results are reported once, by slice 0
+        if (sliceI != 0) { Stats fresh; ST = fresh; prunedStates = 0; }   // phase-1 results are reported once, by slice 0
         std::vector<std::unique_ptr<State>> items = std::move(work); work.clear();
         int fd = open(counterPath.c_str(), O_RDWR); auto *counter = (std::atomic<uint64_t> *)mmap(nullptr, 8, PROT_READ | PROT_WRITE, MAP_SHARED, fd, 0);
         if (fd < 0 || counter == MAP_FAILED) { std::cerr << "sqsym: cannot map counter\n"; _exit(2); }
